@@ -29,6 +29,9 @@ vlen = z3.Function('vlen', V, I)
 vseq = z3.Function('vseq', V, z3.ArraySort(I, V))
 str_concat = z3.Function('str_concat', V, V, V)
 # dict view of an opaque value (decoded payloads, pub/sub messages)
+dlen = z3.Function('dlen', V, I)                       # opaque dict as a sequence of (key, value) pairs in iteration order
+dkey = z3.Function('dkey', V, z3.ArraySort(I, V))
+dval = z3.Function('dval', V, z3.ArraySort(I, V))
 vhas = z3.Function('vhas', V, V, B)
 vget = z3.Function('vget', V, V, V)
 
